@@ -13,7 +13,7 @@ Theorem neighbors_spec : forall cell cn cd xyz query hay,
   neighbors_frame cell cn cd xyz query hay =
     filter (fun i => existsb (fun j => negb (Nat.eqb i j) && within cell cn cd xyz i j) query) hay
   /\ (NoDup hay -> NoDup (neighbors_frame cell cn cd xyz query hay)).
-Proof. intros. split; [exact (neighbors_frame_filter _ _ _ _ _ _)|exact (neighbors_nodup _ _ _ _ _ _)]. Qed.
+Proof. exact neighbors_spec_both. Qed.
 Print Assumptions neighbors_spec.
 
 (* the Python wrapper returns that list when all indices are valid *)
